@@ -647,7 +647,8 @@ class Network(BaseModel):  # pylint: disable=too-many-public-methods
 
     def gen_routes(self):
         """Generates the routes for source-based routing."""
-        self.routing.num_route_bits = 0
+        # A route word is at least one bit wide, `0'b` is not a valid literal
+        self.routing.num_route_bits = 1
         for ni_src in self.graph.get_ni_nodes():
             routes = []
             for ni_dst in self.graph.get_ni_nodes():
